@@ -21,6 +21,7 @@ type ClientServerStream struct {
 
 	serverSend chan any
 	clientSend chan any
+	trailerM   sync.Mutex // guards trailer, which the client may read once its context has ended while the handler still runs
 	trailer    metadata.MD
 	closed     context.CancelFunc
 	closeErrM  sync.Mutex // guards closeErr, which can be read before Close if the parent context is done
@@ -87,6 +88,8 @@ func (c *clientStream) Header() (metadata.MD, error) {
 }
 
 func (c *clientStream) Trailer() metadata.MD {
+	c.trailerM.Lock()
+	defer c.trailerM.Unlock()
 	return c.trailer
 }
 
@@ -154,6 +157,8 @@ func (s *serverStream) SendHeader(md metadata.MD) error {
 }
 
 func (s *serverStream) SetTrailer(md metadata.MD) {
+	s.trailerM.Lock()
+	defer s.trailerM.Unlock()
 	s.trailer = metadata.Join(s.trailer, md)
 }
 
